@@ -555,12 +555,68 @@ PROPS["C16"] = dict(
         H("c16_anchor_n20_s3_any", timeout=1800, unwindset=U16, tier="thorough", bounds="all buffers of that length at that start; other arguments symbolic", replay="trace"),
         H("c16_classify_n40_o0_cr_any", timeout=1800, unwindset=U16, tier="thorough", bounds="all buffers of that length at that start; other arguments symbolic", replay="trace"),
         H("c16_classify_n40_o8_nocr_any", timeout=1800, unwindset=U16, tier="thorough", bounds="all buffers of that length at that start; other arguments symbolic", replay="trace"),
-        H("c16_classify_n40_o9_cr_any", timeout=1800, unwindset=U16, tier="quick", bounds="all buffers of that length at that start; other arguments symbolic", replay="trace"),
+        H("c16_classify_n48_o9_cr_any", timeout=1800, unwindset=U16, tier="quick", bounds="all buffers of that length at that start; other arguments symbolic", replay="trace"),
         H("c16_classify_n40_o25_cr_any", timeout=1800, unwindset=U16, tier="quick", bounds="all buffers of that length at that start; other arguments symbolic", replay="trace"),
         H("c16_quote_n40_s3_avx2", fs="scalar-yaml", timeout=1800, unwindset=U16, tier="quick", bounds="scalar-yaml build: pure scalar kernel, same harness"),
         H("c16_spaces_n40_s5_avx2", fs="scalar-yaml", timeout=1800, unwindset=U16, tier="quick", bounds="scalar-yaml build: pure scalar kernel, same harness"),
         H("c16_block_end_n40_s3_avx2", fs="scalar-yaml", timeout=1800, unwindset=U16, tier="quick", bounds="scalar-yaml build: pure scalar kernel, same harness"),
         H("c16_anchor_n40_s1_avx2", fs="scalar-yaml", timeout=1800, unwindset=U16, tier="quick", bounds="scalar-yaml build: pure scalar kernel, same harness"),
         H("c16_witness_must_fail", kind="witness", tier="thorough", timeout=900, unwindset=U16),
+    ],
+)
+
+U32 = {r"select_in_word_ctz": 66, r"structurals|matching_close|outside_strings|value_end|starts_value|recognise|c32_": 12,
+       r"find_string_end|find_number_end": 12}
+
+PROPS["C32"] = dict(
+    module="c32",
+    bounds=("every valid JSON document (accepted by the independent RFC 8259 recogniser, nesting <= 4) of exactly 2, 4, 5, 6, 7, 8 bytes; every ordinal k and every "
+            "position p up to len+1: structural_pos / structural_count / structural_index / find_close / skip_value"),
+    outside="documents longer than 8 bytes; the AVX2 simple builder inside SimpleJsonIndex::build (SSE2 path taken; C05 decides builder equality)",
+    assumptions=["is_x86_feature_detected!(avx2) = false (SSE2 builder), CTZ in-word select", "validity of the input is the harness recogniser's Accept (assumed)"],
+    harnesses=[
+        H("c32_valid_len2", timeout=900, unwindset=U32, bounds="all valid 2-byte documents"),
+        H("c32_valid_len4", timeout=1800, unwindset=U32, bounds="all valid 4-byte documents"),
+        H("c32_valid_len5", timeout=2700, unwindset=U32, tier="thorough", bounds="all valid 5-byte documents"),
+        H("c32_valid_len6", timeout=2700, unwindset=U32, bounds="all valid 6-byte documents"),
+        H("c32_valid_len7", timeout=2700, unwindset=U32, tier="thorough", bounds="all valid 7-byte documents"),
+        H("c32_valid_len8", timeout=2700, unwindset=U32, tier="thorough", bounds="all valid 8-byte documents"),
+        H("c32_witness_must_fail", kind="witness", tier="thorough", timeout=1800, unwindset=U32),
+    ],
+)
+
+U04 = {r"d_find_close|d_find_open|d_enclose|d_select0|c04_": 134, r"select_in_word_ctz|spec.*select_in_word": 66,
+       r"spec.*rank1|spec.*select1|masked": 5}
+
+PROPS["C04"] = dict(
+    module="c04",
+    bounds=("2 arbitrary words (stray bits included) with concrete lengths {1,63,64,65,100,128}; every position p and rank k up to 131; free functions find_close/find_open/enclose; "
+            "BalancedParens owned (new), borrowed with strays (from_words), WithSelect, WithCsPoppy at rates {1,7,256,4096}: find_close, find_open, enclose/parent, first_child, "
+            "next_sibling, excess, depth, subtree_size, rank1/rank0, select1/select0, is_open/is_close against left-to-right / right-to-left excess scans; in-word kernels are C02"),
+    outside=("sequences longer than 2 words: the L1 (2048-bit) and L2 (65,536-bit) block paths, depth > 32,767 and the SSE4.1 builders of the `simd` build are NOT reached by "
+             "these harnesses (a 2-word vector stays inside one L0/L1/L2 block)"),
+    assumptions=["BMI2 probe solver-chosen, AVX2 block popcount modelled in the select harnesses"],
+    harnesses=[
+        H("c04_free_len100", timeout=1800, unwindset=U04, bounds="free functions, len 100"),
+        H("c04_free_len128", timeout=1800, unwindset=U04, tier="thorough", bounds="free functions, len 128"),
+        H("c04_free_len65", timeout=1800, unwindset=U04, tier="thorough", bounds="free functions, len 65"),
+        H("c04_free_len64", timeout=1800, unwindset=U04, tier="thorough", bounds="free functions, len 64"),
+        H("c04_free_len63", timeout=1800, unwindset=U04, bounds="free functions, len 63"),
+        H("c04_free_len1", timeout=600, unwindset=U04, bounds="free functions, len 1"),
+        H("c04_bp_owned_len100", timeout=2700, unwindset=U04, bounds="BalancedParens::new, len 100"),
+        H("c04_bp_owned_len128", timeout=2700, unwindset=U04, tier="thorough", bounds="len 128"),
+        H("c04_bp_owned_len65", timeout=2700, unwindset=U04, bounds="len 65"),
+        H("c04_bp_owned_len64", timeout=2700, unwindset=U04, tier="thorough", bounds="len 64"),
+        H("c04_bp_owned_len63", timeout=2700, unwindset=U04, tier="thorough", bounds="len 63"),
+        H("c04_bp_owned_len1", timeout=900, unwindset=U04, bounds="len 1"),
+        H("c04_bp_borrowed_len100", timeout=2700, unwindset=U04, bounds="from_words(&[u64]) with stray bits, len 100"),
+        H("c04_bp_borrowed_len65", timeout=2700, unwindset=U04, tier="thorough", bounds="borrowed, len 65"),
+        H("c04_bp_borrowed_len63", timeout=2700, unwindset=U04, tier="thorough", bounds="borrowed, len 63"),
+        H("c04_bp_withselect_len100", timeout=2700, unwindset=U04, tier="thorough", bounds="WithSelect, len 100", replay="trace"),
+        H("c04_bp_cspoppy_len100", timeout=2700, unwindset=U04, bounds="WithCsPoppy default rate, len 100", replay="trace"),
+        H("c04_bp_cspoppy_rate1_len100", timeout=2700, unwindset=U04, tier="thorough", bounds="WithCsPoppy rate 1", replay="trace"),
+        H("c04_bp_cspoppy_rate7_len128", timeout=2700, unwindset=U04, tier="thorough", bounds="WithCsPoppy rate 7, len 128", replay="trace"),
+        H("c04_bp_cspoppy_rate4096_len65", timeout=2700, unwindset=U04, tier="thorough", bounds="WithCsPoppy rate 4096, len 65", replay="trace"),
+        H("c04_witness_must_fail", kind="witness", tier="thorough", timeout=1800, unwindset=U04),
     ],
 )
